@@ -284,8 +284,13 @@ func (r *rounds) reopenCheck() {
 		}
 		seen[s.ver] = true
 		t := util.NewMerklePatriciaTrie(p2, util.Sequence(s.ver), s.root, NewTxnCache())
-		items, ires := IterItems(t)
+		// bounded independent walk first: a store with misplaced nodes can hold cycles, which the real
+		// iteration would follow forever; such a store is reported without iterating it
 		wr := bridge.WalkMPT(s.root, RawGet(p2), -1)
+		items, ires := []bridge.Item{}, "skipped"
+		if wr.KeysOK {
+			items, ires = IterItems(t)
+		}
 		checks = append(checks, map[string]any{"ver": s.ver, "root": r.in.ID(s.root), "ires": ires, "items": ItemsJSON(items),
 			"missing": wr.Missing, "keysOK": wr.KeysOK})
 	}
@@ -359,6 +364,40 @@ func RunRounds(w *tr.Writer, in *tr.Interner, st *RStats, tid int, h RHist) {
 				broken[op.T] = true
 			}
 			r.emit(map[string]any{"op": op.Op, "t": op.T, "p": bridge.Chars(p), "v": op.V, "res": res})
+		case "bulk":
+			// op.K seeded random updates of trie op.T executed as ONE trace event (composite action of the specification)
+			t := r.tries[op.T]
+			if t == nil {
+				continue
+			}
+			br := rand.New(rand.NewSource(int64(op.Ver)))
+			var kvs []any
+			res := "ok"
+			for i := 0; i < op.K; i++ {
+				p := make([]byte, 2*(1+br.Intn(3)))
+				for j := range p {
+					p[j] = "0123456789abcdef"[br.Intn(16)]
+				}
+				v := fmt.Sprintf("b%dv%d", op.Ver, i)
+				del := br.Intn(6) == 0
+				one := Guard(func() string {
+					var err error
+					if del {
+						_, err = t.trie.Delete(util.Path(append([]byte(nil), p...)))
+					} else {
+						_, err = t.trie.Insert(util.Path(append([]byte(nil), p...)), Val([]byte(v)))
+					}
+					return ResClass(err)
+				})
+				if del {
+					v = ""
+				}
+				if one != "ok" && !(del && one == "notpresent") {
+					res = one
+				}
+				kvs = append(kvs, []any{bridge.Chars(p), v})
+			}
+			r.emit(map[string]any{"op": "bulk", "t": op.T, "kvs": kvs, "res": res})
 		case "merge":
 			t, parent := r.tries[op.T], r.tries[0]
 			if t == nil || parent == nil || op.T == 0 {
@@ -614,6 +653,39 @@ func GenRounds(rnd *rand.Rand, persist bool) RHist {
 			h.Ops = append(h.Ops, ROp{Op: "prune", Ver: pv})
 		}
 		ver += int64(1 + rnd.Intn(2))
+	}
+	return h
+}
+
+// GenRoundsBulk draws a large-scope multi-round history: rounds whose change set holds several hundred nodes (one
+// SaveChanges = one multi-put of that size), directly on the block trie and through a merged transaction, with
+// dead-node records, a prune and a crash inside a save.
+func GenRoundsBulk(rnd *rand.Rand) RHist {
+	h := RHist{Persist: true, Quiet: true}
+	seed := int64(1 + rnd.Intn(1000000))
+	ver := int64(1)
+	nrounds := 3 + rnd.Intn(2)
+	for rd := 0; rd < nrounds; rd++ {
+		h.Ops = append(h.Ops, ROp{Op: "round", Ver: ver})
+		n := 150 + rnd.Intn(250)
+		if rd > 0 {
+			n = 40 + rnd.Intn(200)
+		}
+		if rnd.Intn(2) == 0 {
+			h.Ops = append(h.Ops, ROp{Op: "bulk", T: 0, K: n, Ver: seed})
+		} else {
+			h.Ops = append(h.Ops, ROp{Op: "open", T: 1}, ROp{Op: "bulk", T: 1, K: n, Ver: seed}, ROp{Op: "merge", T: 1})
+		}
+		seed++
+		if rd == 1 && rnd.Intn(2) == 0 {
+			h.Ops = append(h.Ops, ROp{Op: "crash", K: rnd.Intn(2)}, ROp{Op: "save"},
+				ROp{Op: "round", Ver: ver}, ROp{Op: "bulk", T: 0, K: n, Ver: seed - 1})
+		}
+		h.Ops = append(h.Ops, ROp{Op: "save"})
+		if rd >= 1 && rnd.Intn(2) == 0 {
+			h.Ops = append(h.Ops, ROp{Op: "prune", Ver: ver})
+		}
+		ver++
 	}
 	return h
 }
